@@ -335,13 +335,20 @@ def nanfill(chk, prog):
         chk.finding("NANFILL.intervals", CORE, "get_nan_intervals", "interval construction", why, line=node.lineno)
 
 
-def nanfill_sampled(chk, prog):
+def nanfill_sampled(chk, prog, tier="quick"):
     """NANFILL.sample: slerp_nan is interpreted on a symbolic 9-row array whose NaN intervals are given ((1,1) and (3,5): two gaps of different lengths) with slerp
     replaced by a recorder that returns marker rows.  Whatever the code looks like: each gap is filled by ONE slerp call between the rows just before and just
     after it, with the weights k/(n+1), k = 1..n of ITS OWN length n and slerp's own options; the marker rows land exactly on the gap; every other row is untouched."""
     f = prog.func(QUAT + "::QuaternionArray.slerp_nan")
     n_rows = 9
-    gaps = [(1, 1), (3, 5)]
+    layouts = [[(1, 1), (3, 5)]]
+    if tier == "thorough":
+        layouts += [[(2, 4), (6, 6)], [(1, 2), (4, 4), (6, 7)], [(1, 7)], [(3, 3)]]
+    for gaps in layouts:
+        _nanfill_layout(chk, prog, f, n_rows, gaps)
+
+
+def _nanfill_layout(chk, prog, f, n_rows, gaps):
     Q = np.empty((n_rows, 4), dtype=object)
     for i in range(n_rows):
         for j, c_ in enumerate("wxyz"):
@@ -389,11 +396,11 @@ def nanfill_sampled(chk, prog):
         for i in range(n_rows):
             out.append(eq(res[i], filled.get(i, Q[i]), "row %d of the result" % i))
         return all_of(*out)
-    chk.ob("NANFILL.sample", f.ref + "::gaps (1,1),(3,5)", "each gap is filled by one slerp call between its neighbours with equal-step weights of its own length; other rows untouched", law,
+    chk.ob("NANFILL.sample", f.ref + "::gaps " + ",".join("(%d,%d)" % g_ for g_ in gaps), "each gap is filled by one slerp call between its neighbours with equal-step weights of its own length; other rows untouched", law,
            module=QUAT, function=f.qname, construct="gap filling on a sample layout", line=f.node.lineno)
 
 
-def jumps_twin(chk, prog):
+def jumps_twin(chk, prog, tier="quick"):
     a = prog.func(QUAT + "::QuaternionArray.remove_jumps")
     b = prog.func(ORI + "::q_correct")
     chk.touch(a)
@@ -448,13 +455,13 @@ def jumps_twin(chk, prog):
     else:
         # different spellings: not a verdict by itself - the sampled interpretation below decides
         chk.record("TWIN.jumps", site, "value numbers of the two copies differ in spelling; decided by TWIN.jumps.sample")
-    jumps_sampled(chk, prog, a, b)
+    jumps_sampled(chk, prog, a, b, tier)
 
 
 JUMP_PATTERNS = [(1, 1, 1, 1, 1, 1), (1, -1, -1, 1, 1, 1), (1, 1, -1, -1, -1, -1), (1, -1, 1, -1, 1, -1), (-1, -1, 1, 1, -1, 1), (1, 1, 1, 1, 1, -1), (-1, 1, 1, 1, 1, 1)]
 
 
-def jumps_sampled(chk, prog, a, b):
+def jumps_sampled(chk, prog, a, b, tier="quick"):
     """TWIN.jumps.sample: both copies of the sign-jump removal are interpreted on a symbolic 6-row array; every data-dependent test (is the step between two rows
     longer than 1?) is decided as it comes out for a slowly turning sequence multiplied by a given sign pattern.  Along that path the results are exact: they must
     be equal row by row, and equal to the input rows times the running product of the flips (no jump left, same rotations)."""
@@ -465,7 +472,13 @@ def jumps_sampled(chk, prog, a, b):
     for i in range(n):
         for j, c_ in enumerate("wxyz"):
             Q[i, j] = P.sym("jq%d%s" % (i, c_))
-    for pat, step in [(p_, 0.05) for p_ in JUMP_PATTERNS] + [(p_, 0.9) for p_ in JUMP_PATTERNS[:4]]:
+    plan = [(p_, 0.05) for p_ in JUMP_PATTERNS] + [(p_, 0.9) for p_ in JUMP_PATTERNS[:4]]
+    if tier == "thorough":
+        # every sign pattern of six rows (the first row positive or negative), slowly and fast turning
+        import itertools
+        every = [tuple(s_) for s_ in itertools.product((1, -1), repeat=n)]
+        plan = [(p_, st_) for st_ in (0.05, 0.9) for p_ in every]
+    for pat, step in plan:
         # step 0.9 rad per row: a sequence that turns by more than half a turn in total (the last rows are in the opposite hemisphere of the first one
         # although no two consecutive rows are far apart)
         vals = {}
@@ -536,8 +549,8 @@ def canaries(chk, prog):
 def run(chk, prog, tier):
     slerp_rules(chk, prog)
     nanfill(chk, prog)
-    nanfill_sampled(chk, prog)
-    jumps_twin(chk, prog)
+    nanfill_sampled(chk, prog, tier)
+    jumps_twin(chk, prog, tier)
     chk.require_count("TWIN.slerp", 4)
     chk.require_count("SLERP.unit", 2)
     chk.require_count("NANFILL.empty", 1)
